@@ -12,6 +12,9 @@ LegalRun(gg, q) == IS!LegalRun(gg, q)
 OncePerFullIteration(gg, q) == IS!OncePerFullIteration(gg, q)
 LegalSched(gg) == IS!LegalSched(gg)
 SubiterAt(gg, i) == IS!SubiterAt(gg, i)
+ExpectedEvents(h) == IS!ExpectedEvents(h)
+ExpectedFiles(h, p, kp) == IS!ExpectedFiles(h, p, kp)
+SetupMustFail(h) == IS!SetupMustFail(h)
 
 SchedOf(r) == [N |-> r.used, startSubset |-> r.startSubset, startSubiter |-> r.startSubiter,
                numSubiters |-> r.numSubiters, randomise |-> r.randomise]
@@ -35,7 +38,58 @@ RunOk(r) ==
           /\ Len(r.subiters) = Len(r.subsets) /\ Len(r.nsub) = Len(r.subsets)
           /\ \A i \in 1 .. Len(r.subsets) : r.subiters[i] = SubiterAt(gg, i) /\ r.nsub[i] = r.used
 
-Explains(r) == CASE r.e = "SchedRun" -> RunOk(r) [] OTHER -> FALSE
+(* ---------------------------------------------------------------------------------------- *)
+(* Beyond the property sentence ("uniformly randomise subset order"): the random order is not degenerate.  One    *)
+(* randomised run of `iters' full iterations; perms = the distinct orders seen (as numbers in base N), pos[p][s] =  *)
+(* how often subset s-1 was used at position p of a full iteration.  Stated so that a correct uniform shuffle fails   *)
+(* with probability < 1e-9: for N <= 3 and iters >= 400 every one of the N! orders occurs ((5/6)^400 * 6 < 1e-30);   *)
+(* for N <= 6 and iters >= 400 every subset occurs at every position (36 * (5/6)^400 < 1e-29).                       *)
+RECURSIVE Fact(_)
+Fact(n) == IF n <= 1 THEN 1 ELSE n * Fact(n - 1)
+RandStatsOk(r) ==
+  /\ ~r.abort /\ ~r.err /\ r.iters >= 400 /\ r.N <= 6
+  /\ Len(r.pos) = r.N /\ \A p \in 1 .. r.N : Len(r.pos[p]) = r.N /\ \A s \in 1 .. r.N : r.pos[p][s] >= 1
+  /\ r.N <= 3 => Cardinality({ r.perms[i] : i \in 1 .. Len(r.perms) }) = Fact(r.N)
+
+(* ---------------------------------------------------------------------------------------- *)
+(* "EventRun": one reconstruction through the parameter-less reconstruct() with a recording      *)
+(* objective function, recording (identity) inter-update / inter-iteration / post filters and a   *)
+(* recording output file format: the complete sequence of events [kind, sub-iteration, x, value].  *)
+KindName(n) == CASE n = 1 -> "G" [] n = 2 -> "IU" [] n = 3 -> "WU" [] n = 4 -> "R" [] n = 5 -> "II" [] n = 6 -> "PF" [] n = 7 -> "W" [] OTHER -> "?"
+HOf(r) == [algo |-> r.algo, N |-> r.used, startSubset |-> r.startSubset, startSubiter |-> r.startSubiter, numSubiters |-> r.numSubiters,
+           randomise |-> r.randomise, save |-> r.save, iuInt |-> r.iuInt, hasIU |-> r.hasIU, iiInt |-> r.iiInt, hasII |-> r.hasII,
+           hasPF |-> r.hasPF, report |-> r.report, writeUpdate |-> r.writeUpdate, disableOutput |-> r.disableOutput]
+EventRunOk(r) ==
+  LET h == HOf(r)
+      proj == [i \in 1 .. Len(r.ev) |-> << KindName(r.ev[i][1]), r.ev[i][2] >>]
+      gs == SelectSeq(r.ev, LAMBDA e : e[1] = 1)
+      subsets == [i \in 1 .. Len(gs) |-> gs[i][3]] IN
+  /\ ~r.abort /\ r.used = r.N
+  /\ IF SetupMustFail(h)
+     THEN \* set_up must refuse these settings, before anything is computed or written
+          r.err /\ Len(r.ev) = 0 /\ Len(r.disk) = 0
+     ELSE /\ ~r.err /\ r.setupOk
+          \* which sub-iterations trigger what, in which order (start..num inclusive)
+          /\ proj = ExpectedEvents(h)
+          \* the subsets handed over are a legal run (property sentence)
+          /\ LegalRun(h, subsets) /\ OncePerFullIteration(h, subsets)
+          \* file names: <prefix>_<k> and <prefix>_update_<k>
+          /\ \A i \in 1 .. Len(r.ev) :
+               /\ r.ev[i][1] = 7 => r.files[r.ev[i][3]] = IS!FileOfW(r.prefix, r.ev[i][2])
+               /\ r.ev[i][1] = 3 => r.files[r.ev[i][3]] = IS!FileOfWU(r.prefix, r.ev[i][2])
+          \* what is on disk afterwards: exactly the announced files
+          /\ { r.disk[i] : i \in 1 .. Len(r.disk) } = ExpectedFiles(h, r.prefix, r.kprefix)
+          /\ Len(r.disk) = Cardinality(ExpectedFiles(h, r.prefix, r.kprefix))
+          \* resuming: the first sub-iteration of a run started from the file written after sub-iteration `resume' of an
+          \* earlier run sees exactly what that file contained (observation against observation)
+          /\ (r.resume > 0 /\ Len(gs) > 0) => (gs[1][2] = r.resume + 1 /\ gs[1][4] = r.prevVal)
+          \* (OSMAPOSL / OSSPS) what is written after sub-iteration k is what sub-iteration k+1 starts from
+          /\ r.algo \in {"OSMAPOSL", "OSSPS"} =>
+                \A i \in 1 .. Len(r.ev) : \A j \in 1 .. Len(r.ev) :
+                   (r.ev[i][1] = 7 /\ r.ev[j][1] = 1 /\ r.ev[j][2] = r.ev[i][2] + 1) => r.ev[j][4] = r.ev[i][4]
+
+(* "RandStats": how often each permutation / each (position, subset) occurred in a long randomised run - see below *)
+Explains(r) == CASE r.e = "SchedRun" -> RunOk(r) [] r.e = "EventRun" -> EventRunOk(r) [] r.e = "RandStats" -> RandStatsOk(r) [] OTHER -> FALSE
 Classify(r) == "new"
 
 Init == l = 1 /\ bad = << >>
